@@ -2,7 +2,7 @@
 from vf import gen, corecheck as cc, framework as fw, model_pubsub
 
 RULE = ("ordering profile (several senders, batching settings, pause/resume of the recipient, poison pills with traffic before and "
-        "after, sends immediately followed by quit, up to three loop runs per scenario) plus the messaging profile; both driving modes. "
+        "after, sends immediately followed by quit, up to three loop runs per scenario) plus the messaging profile; pill_paused_restart, pill_pause_in_batch (pill behind accumulated events whose handler pauses the module) and batch_then_mail_at_quit (accumulated events + unread mail at loop stop) profiles; both driving modes. "
         "Unique payload tokens make the check a linear scan per recipient: a first-time delivery whose send interval ended before "
         "the send interval of an earlier delivered message began is a reordering (stash replays, identified by their nesting inside "
         "m_mod_unstash, are excluded); nothing sent after an accepted pill may be delivered before the recipient left RUNNING; when a "
@@ -30,6 +30,19 @@ def run(tier):
         for m in ("loop", "dispatch"):
             c = cc.Case()
             c.sc, c.profile, c.mode, c.seed = sc, "pill_paused_restart", m, seed * 1000 + k
+            cases.append(c)
+
+    for k in range(16 if tier == "quick" else 400):
+        sc = gen.gen_pill_pause_in_batch(seed * 1000 + k)
+        for m in ("loop", "dispatch"):
+            c = cc.Case()
+            c.sc, c.profile, c.mode, c.seed = sc, "pill_pause_in_batch", m, seed * 1000 + k
+            cases.append(c)
+    for k in range(16 if tier == "quick" else 400):
+        sc = gen.gen_batch_then_mail_at_quit(seed * 1000 + k)
+        for m in ("loop", "dispatch"):
+            c = cc.Case()
+            c.sc, c.profile, c.mode, c.seed = sc, "batch_then_mail_at_quit", m, seed * 1000 + k
             cases.append(c)
 
     def oracle(case):
